@@ -36,16 +36,18 @@ pub fn add_jobs_c03<'a>(cfg: &'a Cfg, jobs: &mut Vec<Box<dyn FnMut(&mut dyn Writ
 
 /// After DropAll + gc: node count back to baseline and the full capacity is available
 /// again (index backend; capacities < 64Ki allocate slot by slot).
-fn capacity_probe<K: BoolKind>(seed: u64, rounds: u32, rep: &mut Report)
+pub fn capacity_probe<K: BoolKind>(seed: u64, rounds: u32, exact: bool, rep: &mut Report)
 where
     for<'id> <<K::F as Function>::Manager<'id> as Manager>::InnerNode: oxidd::HasLevel,
 {
     let mut s = seed;
     for round in 0..rounds {
-        s = mix(s);
+        if !exact {
+            s = mix(s);
+        }
         let n = 4 + (s % 4) as u32;
         let cap = 60 + (s >> 8) as usize % 40; // < 100: no background collector that could make an explicit gc() a no-op
-        let ctx = json!({"kind": K::NAME, "n": n, "capacity": cap, "round": round});
+        let ctx = json!({"kind": K::NAME, "n": n, "capacity": cap, "round": round, "seed": s});
         progress(&json!({"sig": format!("C05/{}/capacity-probe/crash", K::NAME), "ctx": ctx}).to_string());
         let order: Vec<u32> = (0..n).collect();
         let mr = crate::build::mk_manager::<K>(n, &order, cap, 16, 1);
@@ -171,12 +173,14 @@ where
 /// 95 % fill. Random operations keep the store around the high-water mark while handles are
 /// alive; every result is compared with the model, and after the run (collector idle, exclusive
 /// lock) the structure / reference-count audit must pass.
-fn auto_gc<K: BoolKind>(seed: u64, rounds: u32, rep: &mut Report) {
+pub fn auto_gc<K: BoolKind>(seed: u64, rounds: u32, exact: bool, rep: &mut Report) {
     use crate::model::*;
     let mut s = seed;
     let mut observed = 0u64;
     for round in 0..rounds {
-        s = mix(s);
+        if !exact {
+            s = mix(s);
+        }
         let n = 6 + (s % 3) as u32;
         let cap = 300 + (s >> 16) as usize % 500;
         let ctx = json!({"kind": K::NAME, "n": n, "capacity": cap, "round": round, "seed": s});
@@ -260,6 +264,141 @@ fn auto_gc<K: BoolKind>(seed: u64, rounds: u32, rep: &mut Report) {
     rep.class_n(&format!("{}.auto_gc.rounds_with_background_collection", K::NAME), observed);
 }
 
+
+/// MTBDD: unused terminals are freed by gc() and their capacity becomes available again.
+/// Random create/drop/gc histories over a terminal store of capacity T; the model is the set of
+/// distinct values reachable from the held handles.
+pub fn terminal_probe<K: VKind>(seed: u64, rounds: u32, exact: bool, mkval: &dyn Fn(u64) -> K::V, rep: &mut Report)
+where
+    K::V: Eq + std::hash::Hash,
+{
+    use std::collections::HashSet as BTreeSet;
+    let mut s = seed;
+    for round in 0..rounds {
+        if !exact {
+            s = mix(s);
+        }
+        let tcap = 3 + (s % 30) as usize;
+        let ctx = json!({"kind": K::NAME, "terminal_capacity": tcap, "round": round, "seed": s});
+        progress(&json!({"sig": format!("C05/{}/terminal-probe/crash", K::NAME), "ctx": ctx}).to_string());
+        let mr = K::new_manager(90, tcap, 16, 1);
+        K::add_vars(&mr, 2);
+        let x0 = K::var(&mr, 0);
+        let mut held: Vec<(K::F, BTreeSet<K::V>)> = vec![];
+        let mut next = 0u64;
+        let mut bad: Option<String> = None;
+        let mut reused = false;
+        let mut created_total = 0usize;
+        let live = |held: &Vec<(K::F, BTreeSet<K::V>)>, extra: &[K::V]| -> usize {
+            let mut all: BTreeSet<K::V> = extra.iter().cloned().collect();
+            for (_, vs) in held {
+                all.extend(vs.iter().cloned());
+            }
+            all.len()
+        };
+        // values of the variable function x0 stay alive through `x0`
+        let var_vals: Vec<K::V> = if x0.is_ok() { vec![K::var_value(0), K::var_value(1)] } else { vec![] };
+        'steps: for step in 0..200u32 {
+            s = mix(s);
+            match s % 8 {
+                0..=4 => {
+                    next += 1;
+                    let v = mkval(next);
+                    let r = K::constant(&mr, &v);
+                    rep.evaluations += 1;
+                    match r {
+                        Ok(f) => {
+                            created_total += 1;
+                            held.push((f, [v].into_iter().collect()));
+                        }
+                        Err(_) => {
+                            // the store may be full of dead terminals; after gc() the creation
+                            // succeeds iff fewer than T terminals are alive
+                            K::gc(&mr);
+                            let alive = live(&held, &var_vals);
+                            let nt = K::num_terminals(&mr);
+                            if nt != alive {
+                                bad = Some(format!("terminal-count: step {step}: {nt} terminals stored after gc(), {alive} distinct values are reachable from live handles"));
+                                break 'steps;
+                            }
+                            match K::constant(&mr, &v) {
+                                Ok(f) => {
+                                    if alive >= tcap {
+                                        bad = Some(format!("terminal-capacity-exceeded: step {step}: {alive} live terminals, capacity {tcap}, creation succeeded"));
+                                        break 'steps;
+                                    }
+                                    reused |= created_total >= tcap;
+                                    created_total += 1;
+                                    held.push((f, [v].into_iter().collect()));
+                                }
+                                Err(_) => {
+                                    if alive < tcap {
+                                        bad = Some(format!("terminal-capacity-lost: step {step}: only {alive} terminals alive after gc() but a new constant does not fit into capacity {tcap} ({created_total} terminals created so far)"));
+                                        break 'steps;
+                                    }
+                                }
+                            }
+                        }
+                    }
+                }
+                5 | 6 => {
+                    if !held.is_empty() {
+                        let k = (s >> 16) as usize % held.len();
+                        held.swap_remove(k);
+                    }
+                }
+                _ => {
+                    K::gc(&mr);
+                    let alive = live(&held, &var_vals);
+                    let nt = K::num_terminals(&mr);
+                    rep.evaluations += 1;
+                    if nt != alive {
+                        bad = Some(format!("terminal-count: step {step}: {nt} terminals stored after gc(), {alive} distinct values are reachable from live handles"));
+                        break 'steps;
+                    }
+                }
+            }
+        }
+        if bad.is_none() {
+            held.clear();
+            drop(x0);
+            K::gc(&mr);
+            let nt = K::num_terminals(&mr);
+            let ni = K::num_inner_nodes(&mr);
+            rep.evaluations += 1;
+            if nt != 0 || ni != 0 {
+                bad = Some(format!("baseline-after-dropall-gc: {nt} terminals / {ni} inner nodes remain after dropping all handles and gc()"));
+            } else {
+                let mut fresh = vec![];
+                for i in 0..tcap as u64 {
+                    match K::constant(&mr, &mkval(1_000_000 + i)) {
+                        Ok(f) => fresh.push(f),
+                        Err(_) => {
+                            bad = Some(format!("terminal-capacity-lost: empty manager (all handles dropped, gc done) accepts only {} of {tcap} terminals ({created_total} terminals were created before)", fresh.len()));
+                            break;
+                        }
+                    }
+                }
+            }
+        }
+        match bad {
+            Some(m) => rep.viol(format!("C05/{}/terminal-probe/{}", K::NAME, crate::hrun::category(&m)), m, ctx.clone()),
+            None => {
+                if created_total > tcap {
+                    rep.nontrivial += 1;
+                }
+                if reused {
+                    rep.class(&format!("{}.terminal_probe.slot_reuse_after_oom", K::NAME));
+                }
+            }
+        }
+        if rep.samples.is_empty() {
+            rep.sample(json!({"suite": "terminal capacity probe", "ctx": ctx, "terminals_created": created_total}));
+        }
+    }
+    rep.class_n(&format!("{}.terminal_probes", K::NAME), rounds as u64);
+}
+
 pub fn add_jobs<'a>(cfg: &'a Cfg, jobs: &mut Vec<Box<dyn FnMut(&mut dyn Write) + 'a>>, names: &mut Vec<String>) {
     macro_rules! autogc {
         ($K:ty, $salt:expr) => {
@@ -268,7 +407,7 @@ pub fn add_jobs<'a>(cfg: &'a Cfg, jobs: &mut Vec<Box<dyn FnMut(&mut dyn Write) +
             names.push(format!("auto-gc/{}", <$K>::NAME));
             jobs.push(Box::new(move |w: &mut dyn Write| {
                 let mut rep = Report::default();
-                auto_gc::<$K>(seed, rounds, &mut rep);
+                auto_gc::<$K>(seed, rounds, false, &mut rep);
                 rep.emit(w);
             }));
         };
@@ -302,12 +441,70 @@ pub fn add_jobs<'a>(cfg: &'a Cfg, jobs: &mut Vec<Box<dyn FnMut(&mut dyn Write) +
             names.push(format!("capacity-probe/{}", <$K>::NAME));
             jobs.push(Box::new(move |w: &mut dyn Write| {
                 let mut rep = Report::default();
-                capacity_probe::<$K>(seed, rounds, &mut rep);
+                capacity_probe::<$K>(seed, rounds, false, &mut rep);
                 rep.emit(w);
             }));
         };
     }
+    {
+        let seed = mix(cfg.seed ^ 0xc05_a01);
+        let rounds = cfg.t(150, 3000);
+        names.push("terminal-probe/mtbdd-i64".into());
+        jobs.push(Box::new(move |w: &mut dyn Write| {
+            let mut rep = Report::default();
+            terminal_probe::<MtI64K>(seed, rounds, false, &mk_ri, &mut rep);
+            rep.emit(w);
+        }));
+        let seed = mix(cfg.seed ^ 0xc05_a02);
+        names.push("terminal-probe/mtbdd-f64".into());
+        jobs.push(Box::new(move |w: &mut dyn Write| {
+            let mut rep = Report::default();
+            terminal_probe::<MtF64K>(seed, rounds, false, &mk_rf, &mut rep);
+            rep.emit(w);
+        }));
+    }
     probe!(BddK, 1);
     probe!(BcddK, 2);
     probe!(ZbddK, 3);
+}
+
+pub fn mk_ri(i: u64) -> crate::vmodel::RI {
+    crate::vmodel::RI::Num(i as i64 * 7 - 3000)
+}
+pub fn mk_rf(i: u64) -> crate::vmodel::RF {
+    crate::vmodel::RF((i as f64 * 0.5 + 2.25).to_bits())
+}
+
+/// Replay of one round of a scenario of this module (signature C05/<kind>/<scenario>/...).
+pub fn replay_scenario(sig: &str, case: &serde_json::Value) -> Option<Result<(), String>> {
+    let parts: Vec<&str> = sig.split('/').collect();
+    if parts.len() < 3 {
+        return None;
+    }
+    let seed = case["seed"].as_u64()?;
+    let (kind, scen) = (parts[1], parts[2]);
+    let out = isolated(300, |w| {
+        let mut rep = Report::default();
+        match (scen, kind) {
+            ("capacity-probe", "bdd") => capacity_probe::<BddK>(seed, 1, true, &mut rep),
+            ("capacity-probe", "bcdd") => capacity_probe::<BcddK>(seed, 1, true, &mut rep),
+            ("capacity-probe", "zbdd") => capacity_probe::<ZbddK>(seed, 1, true, &mut rep),
+            ("auto-gc", "bdd") => auto_gc::<BddK>(seed, 1, true, &mut rep),
+            ("auto-gc", "bcdd") => auto_gc::<BcddK>(seed, 1, true, &mut rep),
+            ("auto-gc", "zbdd") => auto_gc::<ZbddK>(seed, 1, true, &mut rep),
+            ("terminal-probe", "mtbdd-i64") => terminal_probe::<MtI64K>(seed, 1, true, &mk_ri, &mut rep),
+            ("terminal-probe", "mtbdd-f64") => terminal_probe::<MtF64K>(seed, 1, true, &mk_rf, &mut rep),
+            _ => {}
+        }
+        rep.emit(w);
+    });
+    let mut total = Report::default();
+    merge_jobs(&mut total, vec![out], &[format!("replay/{scen}/{kind}")]);
+    if !matches!(scen, "capacity-probe" | "auto-gc" | "terminal-probe") {
+        return None;
+    }
+    Some(match total.viols.first() {
+        Some(v) => Err(format!("{}: {}", v.sig, v.what)),
+        None => Ok(()),
+    })
 }
